@@ -10,6 +10,8 @@ Driver for C17. The first token after the id is the gate kind.
   M <n> opt* <method> <ctxOrig> <csrfVerified> <clZero> <n>{name val}* <n>{name val}* <n>{raw upper}* <n>{raw norm}* => <ran> <seen> <original>
       opt = H s | Q s | A n s* | O n s* | B b | C b
   T <policy> <path> <pre> <hostSet> <rawQuery> <forceQuery> => <ran> <status> <loc: 0 | 1 s>
+  E B <limit> => <status> <content-type> <body> <www: 0>          (bodylimit's default error handler, declared size over the limit)
+  E A <realm> => <status> <content-type> <body> <www: 0 | 1 s>    (basicauth's default unauthorized handler, no credentials)
 
 A panic of the real code is the single observation token `P`.
 -/
@@ -94,6 +96,18 @@ def pAuthObs : P Auth.Obs := do
 
 def showAuthObs (o : Auth.Obs) : String :=
   s!"{b01 o.ran} {o.status} {encOpt o.www} {encStr o.user}"
+
+/-! ### default error responses (kind E) -/
+
+def pErrObs : P Body.ErrResp := do
+  let status ← nat
+  let ctype ← str
+  let body ← str
+  let www ← opt str
+  pure { status, ctype, body, www }
+
+def showErrObs (o : Body.ErrResp) : String :=
+  s!"{o.status} {encStr o.ctype} {encStr o.body} {encOpt o.www}"
 
 /-! ### cors -/
 
@@ -213,6 +227,8 @@ def step (line : String) : String :=
                        (fun r o => Cors.specOK (Cors.config r.opts) r o) (fun _ => "-") showCorsObs
     | "M" :: rest => decideCase id rest obs pMethodReq pMethodObs Method.serve
                        (fun r o => Method.specOK (Method.config r.opts) r o) (fun _ => "-") showMethodObs
+    | "E" :: "B" :: rest => decideCase id rest obs nat pErrObs Body.errorResponse (fun _ o => Body.errSpecOK o) (fun _ => "-") showErrObs
+    | "E" :: "A" :: rest => decideCase id rest obs str pErrObs Auth.errorResponse (fun _ o => Auth.errSpecOK o) (fun _ => "-") showErrObs
     | "T" :: rest => decideCase id rest obs pSlashReq pSlashObs Slash.serve Slash.specOK (fun _ => "-") showSlashObs
     | _ => s!"{id} bad-case"
 
